@@ -248,7 +248,12 @@ def _impl_one(case):
                     if k not in seen:
                         seen.add(k)
                         parses.append(parse_header(k, n["value"]))
-        return {"after": after, "error": err, "trace": ev.ev, "entered": entered, "parses": parses, **rec}
+        out = {"after": after, "error": err, "trace": ev.ev, "entered": entered, "parses": parses, "missing": bool(case.get("missing")), **rec}
+        # the property's oracle runs here, in the worker (it re-parses intermediate texts to attribute a failure to one CST change)
+        out["fails"] = oracle(src, out)
+        out["change_kinds"] = ([ch["what"] for ch in align(out["nodes_before"], out["nodes_after"], parses)]
+                               if out.get("nodes_after") is not None else [])
+        return out
     finally:
         shutil.rmtree(d, ignore_errors=True)
 
@@ -257,20 +262,36 @@ def _impl_one(case):
 # the property's oracle, on the real before / after files
 # ------------------------------------------------------------------------------------------------
 DEF_KINDS = ("FunctionDefinitionStart", "ClassDefinitionStart")
-PRIORITY = ["unaligned", "wrong-open-paren+stray-arrow", "stray-arrow", "wrong-open-paren", "node-spans-two-definitions", "docstring-node-overlong", "same-line-tail", "indent-sample-not-statement", "indent-under-4", "docstring-not-triple-quoted",
+PRIORITY = ["unaligned", "wrong-open-paren+stray-arrow", "stray-arrow", "wrong-open-paren", "node-spans-two-definitions", "docstring-node-overlong", "same-line-tail", "indent-sample-not-statement", "indent-under-4", "docstring-not-triple-quoted", "escape-in-docstring",
             "triple-quote-in-docstring", "header-last-node", "empty-docstring-removed", "async-docstring-removed", "header-resynth",
             "docstring-removed", "return-type-changed"]
 
 
+def py_lines(text: str):
+    """the physical lines as CPython's tokenizer / `ast` line numbers count them: `\\n`, `\\r\\n` and a lone `\\r` end a line
+    (a lone CR can appear when a `\\r` escape of a docstring is written out literally)"""
+    import re
+
+    return re.split(r"\r\n|\r|\n", text)
+
+
+def py_readline(text: str):
+    """a `readline` for `tokenize` whose rows agree with `ast` line numbers (see `py_lines`)"""
+    import re
+
+    it = iter(re.findall(r"[^\r\n]*(?:\r\n|\r|\n)|[^\r\n]+$", text))
+    return lambda: next(it, "")
+
+
 def comments_of(src: str):
-    return [t.string for t in tokenize.generate_tokens(io.StringIO(src).readline) if t.type == tokenize.COMMENT]
+    return [t.string for t in tokenize.generate_tokens(py_readline(src)) if t.type == tokenize.COMMENT]
 
 
 def header_and_doc_lines(src: str, tree: ast.Module):
     """1-based line numbers belonging to a `def`/`class` header (from the keyword line to the line of its colon) or to a docstring of a
     function / class."""
     hdr, doc = set(), set()
-    toks = list(tokenize.generate_tokens(io.StringIO(src).readline))
+    toks = list(tokenize.generate_tokens(py_readline(src)))
     starts = set()
     for n in ast.walk(tree):
         if isinstance(n, (ast.FunctionDef, ast.AsyncFunctionDef, ast.ClassDef)):
@@ -467,6 +488,10 @@ def align(nb, na, parses):
             # the scanner only ends a triple-quoted node on a line that ends with the quotes: `"""Doc."""  # noqa` runs on to the end of
             # the *next* docstring, and replacing "the docstring" deletes everything in between
             fl.append("docstring-node-overlong")
+        if "\\" in src_node["value"] or "\\" in new_node["value"] or "\r" in new_node["value"]:
+            # the *evaluated* docstring (escape sequences already interpreted) is written into the source text unescaped: `\\\\` comes
+            # back as one backslash (which then escapes whatever follows), `\\r` as a raw carriage return, …
+            fl.append("escape-in-docstring")
         if new_node["value"].count('"' * 3) > 2:
             # the replacement is always wrapped in three double quotes; text that itself contains them ends the string early
             fl.append("triple-quote-in-docstring")
@@ -582,6 +607,71 @@ def cause_of_invalid(nb, changes):
     return "none"
 
 
+BENIGN = {"return-type-changed", "docstring-removed"}  # flags that describe a normal operation, not an anomaly
+_LISTED = None
+
+
+def _listed_causes():
+    """the causes that are individually listed as known findings"""
+    global _LISTED
+    if _LISTED is None:
+        _LISTED = {it["match"].get("cause") for it in core.KnownFindings("C07").items} - {None, "several-known-causes"}
+    return _LISTED
+
+
+def _combine(window):
+    """One cause for the changes applied since the last state on which the clause could be evaluated: the anomaly of the single
+    change that has one; `several-known-causes` when several changes with *different* anomalies are involved and every one of them is
+    individually a listed finding; `none` otherwise."""
+    tops = [t for t in (_first_flag([f for f in c["flags"] if f not in BENIGN]) for c in window) if t != "none"]
+    d = set(tops)
+    if not d:
+        return "none"
+    if len(d) == 1:
+        return tops[0]
+    return "several-known-causes" if d <= _listed_causes() else "none"
+
+
+def attribute_incremental(nb, changes, evaluate):
+    """Apply the real CST changes one after the other; `evaluate(text)` returns the set of failure keys present in that state, or None
+    when the clause cannot be evaluated there (the intermediate text is not Python).  -> {key: cause} for the state in which each key
+    first shows up, the cause being taken from the changes applied since the previous evaluable state."""
+    out, window = {}, []
+    for k in range(1, len(changes) + 1):
+        if "op" not in changes[k - 1]:
+            break
+        window.append(changes[k - 1])
+        keys = evaluate(text_with(nb, changes, k))
+        if keys is None:
+            continue
+        cause = None
+        for key in keys:
+            if key not in out:
+                cause = cause or _combine(window)
+                out[key] = cause
+        window = []
+    return out
+
+
+def ast_keys(src, text):
+    """the (field, path) pairs on which the erased trees of `src` and `text` differ; None when `text` is not Python"""
+    try:
+        tb2, ta2 = ast.parse(src), ast.parse(text)
+    except (SyntaxError, ValueError):
+        return None
+    eb, ea = erase(tb2), erase(ta2)
+    if ast.dump(eb) == ast.dump(ea):
+        return set()
+    return {(f, tuple(p) if p else None) for f, p, _, _ in ast_diff(eb, ea)}
+
+
+def comment_keys(cb, text):
+    try:
+        return set() if comments_of(text) == cb else {"comments"}
+    except (tokenize.TokenError, IndentationError, SyntaxError, ValueError):
+        return None
+
+
 def lines_outside(text):
     """the lines that are neither in a definition header nor in a docstring (None when `text` is not Python)"""
     try:
@@ -589,17 +679,18 @@ def lines_outside(text):
     except (SyntaxError, ValueError):
         return None
     h, d = header_and_doc_lines(text, t)
-    return [(i, l) for i, l in enumerate(text.split("\n"), 1) if i not in h and i not in d]
+    return [(i, l) for i, l in enumerate(py_lines(text), 1) if i not in h and i not in d]
 
 
 def cause_of_line_diff(src, nb, changes):
     """Apply the changes one after the other: the first one after which the lines clause fails is the cause."""
     want = [l for _, l in lines_outside(src)]
-    for k in range(1, len(changes) + 1):
-        got = lines_outside(text_with(nb, changes, k))
-        if got is not None and [l for _, l in got] != want:
-            return _first_flag(changes[k - 1]["flags"])
-    return "none"
+
+    def ev(text):
+        got = lines_outside(text)
+        return None if got is None else (set() if [l for _, l in got] == want else {"lines"})
+
+    return attribute_incremental(nb, changes, ev).get("lines", "none")
 
 
 def flags_for_def(changes, name, lineno, body: bool):
@@ -646,16 +737,20 @@ def oracle(src: str, r: dict):
                 n._anns = [None if a.annotation is None else ast.dump(a.annotation) for a in n.args.args]
     eb, ea = erase(tb2), erase(ta2)
     if ast.dump(eb) != ast.dump(ea):
+        exact = None  # computed on demand: exact attribution by applying the changes one at a time
         for field, path, lineno, resynth in ast_diff(eb, ea):
-            if field == "definitions":
-                # a definition vanished / appeared: only a header rewrite that cut at the wrong parenthesis / arrow can do that
-                cause = _first_flag([f for c in changes for f in c["flags"]
-                                     if (c["what"] == "header" and f in ("wrong-open-paren", "stray-arrow")) or f == "docstring-node-overlong"])
-            elif field == "statements" and not path:
-                # a new module-level statement: a docstring appended after a header node that swallowed the rest of the file
-                cause = _first_flag([f for c in changes if c["what"] != "header" for f in c["flags"] if f == "header-last-node"])
+            if field == "definitions" or not path:
+                # a definition vanished / appeared, or a module-level statement did: not tied to the changes of one definition —
+                # found below by applying the changes one at a time
+                cause = "none"
             else:
                 cause = "header-resynth" if resynth else (cause_for_def(changes, path[-1], lineno, field == "statements") if path else "none")
+            if cause == "none" and changes:
+                # the difference is not explained by the changes made to that very definition (an over-long docstring node or a
+                # misplaced header slice of *another* definition reaches into it): find the change that introduces it
+                if exact is None:
+                    exact = attribute_incremental(r["nodes_before"], changes, lambda text: ast_keys(src, text))
+                cause = exact.get((field, tuple(path) if path else None), "none")
             sig = {"clause": "ast-erase", "field": field, "cause": cause}
             if resynth:
                 if path and "node-spans-two-definitions" in flags_for_def(changes, path[-1], lineno, False):
@@ -666,11 +761,14 @@ def oracle(src: str, r: dict):
                           "syntax tree differs after erase: %s of %s" % (field, ".".join(path) if path else "<module>")))
     cb, ca = comments_of(src), comments_of(after)
     if cb != ca:
-        fails.append(({"clause": "comments", "cause": comment_cause(cb, ca, changes)}, "comment list differs: %r -> %r" % (cb[:8], ca[:8])))
+        cc = comment_cause(cb, ca, changes)
+        if cc == "none" and changes:
+            cc = attribute_incremental(r["nodes_before"], changes, lambda text: comment_keys(cb, text)).get("comments", "none")
+        fails.append(({"clause": "comments", "cause": cc}, "comment list differs: %r -> %r" % (cb[:8], ca[:8])))
     hb, db = header_and_doc_lines(src, tb)
     ha, da = header_and_doc_lines(after, ta)
-    lb = [(i, l) for i, l in enumerate(src.split("\n"), 1) if i not in hb and i not in db]
-    la = [(i, l) for i, l in enumerate(after.split("\n"), 1) if i not in ha and i not in da]
+    lb = [(i, l) for i, l in enumerate(py_lines(src), 1) if i not in hb and i not in db]
+    la = [(i, l) for i, l in enumerate(py_lines(after), 1) if i not in ha and i not in da]
     if [l for _, l in lb] != [l for _, l in la]:
         k = next((i for i, (x, y) in enumerate(zip(lb, la)) if x[1] != y[1]), min(len(lb), len(la)))
         fails.append(({"clause": "lines", "cause": cause_of_line_diff(src, r["nodes_before"], changes) if changes else "none"},
@@ -708,7 +806,7 @@ def comment_cause(cb, ca, changes):
 def comments_in_text(text):
     out = []
     try:
-        for t in tokenize.generate_tokens(io.StringIO(text.lstrip("\n") + " pass\n").readline):
+        for t in tokenize.generate_tokens(py_readline(text.lstrip("\n") + " pass\n")):
             if t.type == tokenize.COMMENT:
                 out.append(t.string)
     except (tokenize.TokenError, IndentationError, SyntaxError):
@@ -768,6 +866,9 @@ WITNESSES = [
     # an `async def` whose body is its docstring, in a file that is rewritten: the docstring must stay (get_doc_str handles AsyncFunctionDef)
     ("w-async-sole", [], 'async def g(a):\n    """Doc."""\n\ndef h(a):\n' + REST_DOC + "    return a\n", ("rest", True, None), None),
     ("w-empty-docstring-sole-body", ["C07-empty-docstring-sole-body"], 'class C:\n    ' + '"' * 6 + '\n\ndef h(a):\n' + REST_DOC + "    return a\n", ("rest", True, None), None),
+    ("w-escape-in-docstring", ["C07-escape-in-docstring"],
+     "class C1:\n    def step(self,\n             *args,\n             **kwargs: Any):\n        \'\'\'Summary line. A backslash: \\\\\'\'\'\n        #no space\n        ...\n",
+     ("google", False, None), None),
     ("w-stub-atomic", [], "def s(a): ...\n\ndef h(a):\n" + REST_DOC + "    return a\n", ("rest", True, None), None),
 ]
 
@@ -987,13 +1088,12 @@ def process_batch(chk: core.Check, cases, acc):
         outcomes["raised-in-cst-stage" if (r["error"] and r["entered"]) else "raised-before-cst-stage" if r["error"] else "rewritten" if changed else "unchanged"] += 1
         if r["error"]:
             errs[r["error"] + ("@cst" if r["entered"] else "@ast")] += 1
-        if r.get("nodes_after") is not None:
-            for ch in align(r["nodes_before"], r["nodes_after"], r["parses"]):
-                change_kinds[ch["what"]] += 1
+        for what in r["change_kinds"]:
+            change_kinds[what] += 1
         chk.count((c["src"], c["fmt"], c["ta"], c["nww"]), nontrivial=bool(changed or (r["error"] and r["entered"])))
         if changed and len(c["src"]) < 260 and c["kind"] == "structured":
             chk.sample({"cfg": [c["fmt"], c["ta"], c["nww"]], "before": c["src"], "after": r["after"]})
-        fails = oracle(c["src"], r)
+        fails = r["fails"]
         if c["kind"] == "witness":
             witness_sigs[c["wid"]] = (fails, r)
         for sig, text in fails:
